@@ -1,5 +1,9 @@
 """C10 configuration for ./check"""
+import os, sys
+sys.path.insert(0, os.path.join(os.path.dirname(os.path.abspath(__file__)), '..'))
+from go2v_hook import go2v_hook
 CONF = {
+    'pre': [go2v_hook],
     'interesting': ['out-of-order-queue', 'overlap-trim', 'duplicate-drop', 'wrap-crossed',
                     'limit-flush', 'age-flush', 'late-syn', 'multi-page'],
     'rule': 'Histories on one half-connection of tcpassembly: (a) all arrival orders of SYN + 3-4 small segments at 6 ISNs '
